@@ -34,6 +34,8 @@ def shards(tier, seed):
         parts = 2 if q else 4
         for i in range(parts):
             out.append(("toy_%d_%d_%d_%d" % (t.curve.key() + (i,)), dict(kind="toy", key=t.curve.key(), part=i, parts=parts, ndig=32 if q else 256)))
+    for t in sel[:: 2 if q else 1]:
+        out.append(("toyL_%d_%d_%d" % t.curve.key(), dict(kind="toy", key=t.curve.key(), part=0, parts=2 if q else 1, ndig=16 if q else 64, legacy_gen=True)))
     for c in lib.pick_curves(tier, seed, extra=3):
         out.append(("prod_%s" % c.name, dict(kind="prod", cname=c.name, rounds=2 if q else 12)))
         out.append(("enc_%s" % c.name, dict(kind="enc", cname=c.name, rounds=1 if q else 6)))
@@ -125,7 +127,7 @@ def run(ctx, name, kind, **kw):
     if kind == "toy":
         from vf import toy
         t = toy.toy(*kw["key"])
-        curve, dom = sigs.toy_lib_curve(t)
+        curve, dom = sigs.toy_lib_curve_legacy(t) if kw.get("legacy_gen") else sigs.toy_lib_curve(t)
         n, p = dom.n, dom.p
         cv = dom.curve
         has_wrap = n < p
